@@ -497,6 +497,8 @@ Proof.
   - (* PQuantileP *) unary. fin.
   - (* PStepFixP *) unary. destruct (Z.leb (c_step_ns c) dur_ns); fin.
   - (* PMetrics15 *) split_cases. cbn [sim_res]. split; [reflexivity|assumption].
+  - (* PLineFormatP: the drawn id names the Go template object only, the statement does not carry it *)
+    unary. unfold next_id. cbn [fst snd]. split_cases. fin.
 Qed.
 
 (* ================================================================ Part C *)
